@@ -9,9 +9,14 @@ set: the running thread first if still enabled, then ascending ids).  An out-of-
 divergence while replaying a prefix are hard errors; every wait has a watchdog.
 """
 import ast
+import functools
 import os
 import sys
 import threading
+
+# Files outside the package whose Python-level lines are scheduling points too: functools.py holds
+# singledispatch (dispatch, register, _find_impl iterate and mutate the printer registry in Python).
+EXTRA_TRACED_FILES = {functools.__file__}
 
 WATCHDOG = 30.0
 
@@ -185,9 +190,16 @@ class Sched:
                     frame.f_trace_opcodes = True
             return local
 
+        def local_extra(frame, event, arg):
+            if event == 'line':
+                self.point(me, True)
+            return local_extra
+
         def glob(frame, event, arg):
-            if not frame.f_code.co_filename.startswith(self.pkg):
-                return None
+            fn = frame.f_code.co_filename
+            if not fn.startswith(self.pkg):
+                # singledispatch's own Python code: lines are scheduling points, always "visible"
+                return local_extra if fn in EXTRA_TRACED_FILES else None
             if opcodes and visible is not None and (frame.f_code.co_filename, frame.f_code.co_name) in visible:
                 frame.f_trace_opcodes = True
             return local
